@@ -51,6 +51,12 @@ BUILT["C20"]=("bounded-exhaustive term enumeration x translator family, structur
 BUILT["C12"]=("bounded-exhaustive term enumeration x complete switch lattice; structural reference predicates",
         "Every well-typed term of every base type up to the node bound (key partitions, key forms): each validation switch alone fails iff the structurally computed defect is present, all 2^14 switch combinations on small terms, every numeric limit at figure-1 / figure / figure+1; every term pushed through every constructor and parser of its context against a structural legality predicate; descriptor-parser acceptance implies consensus-miniscript-parser acceptance; entails/intersect lattice laws on a parameter family and monotonicity of validate over all entailing pairs.",
         "3 C12")
+BUILT["C15"]=("exhaustive enumeration of binary tree shapes and chains against a recursive BIP341 reference",
+        "ALL binary tree shapes up to the leaf bound (two internal keys, repeated leaves) and left/right/zig-zag chains of every depth 1..128, each built by leaf/combine, by parsing and by key translation: merkle root, output key and parity, every control block (also verified independently against the scriptPubKey), leaf order and depths, address, bitcoin::TapTree conversion and Display->FromStr are compared with a reference written from BIP341; depth 129 must be refused.",
+        "3 C15")
+BUILT["C16"]=("bounded-exhaustive enumeration of output types / key forms / networks / indices against byte-level references",
+        "Every output type x key form x network and every B term up to the node bound inside sh/wsh/sh-wsh/tr: scriptPubKey, address, explicit_script, script_code and unsigned_script_sig equal byte-level references and a spend signed over script_code() verifies on the reference Script machine; xpub key expressions x indices equal independent BIP32 derivation with the documented errors; all key permutations of sortedmulti give one scriptPubKey; multipath split equals textual selection.",
+        "3 C16")
 NA_REASON={}
 
 def hooks_commits():
